@@ -75,7 +75,7 @@ def random_specs(rng, n):
                     ok = False
                 seen[key] = v
         if ok and max_spelling_len(spec) <= 9:
-            out.append(spec)
+            out.append(decorate(rng, spec))
     return out
 
 
@@ -157,7 +157,8 @@ def program(spec, pname, tier, cap):
                   desc="P::from_str(s) == Q::from_str(s) (Q = P + use_phf) and Q vs reference parser, every valid UTF-8 s <= %d bytes" % N,
                   bound={"N_bytes": N, "alphabet": "all valid UTF-8"}, min_covers=2 if any(not v.default for v in enabled(spec)) else 1,
                   functions=fns)]
-    if not any(not v.default for v in enabled(spec)):
+    if not any((not v.default) and any(len(sp.encode()) <= N for sp in spellings(spec, v)) for v in enabled(spec)):
+        hs[0].min_covers = 1
         hs[0].body = hs[0].body.replace('    vcover!(o.is_some(), "input is a spelling");\n', "")
     # witness queries (no free variable): look-alikes and case flips of the program's own spellings
     ws = [w for w in lookalikes(spec) if len(w.encode()) <= 16][: (6 if tier == "quick" else 24)]
